@@ -45,6 +45,27 @@ def tamper_traces():
     verdicts, _ = tracecheck.judge("Trace_sched.tla", "Trace_sched.cfg", [a, b, c, d, e])
     print("Trace_sched verdicts (original, swapped, double release, changed data, leftover):", [verdicts[k] for k in range(1, 6)])
     ok &= verdicts[1][0] and not verdicts[3][0] and not verdicts[4][0] and not verdicts[5][0]
+    # several requests in flight (Trace_multi): the original is accepted; a resolver of request 1 appearing in request 2's pending set
+    # while request 1 is released ("disturbed"), a release of a resolver the request never calls, and a changed answer are rejected
+    import multitrace
+    r = multitrace.job({"seed": 4243, "behaviours": 2000, "max_cases": 40, "groups": 30, "keep_records": True, "simcfg": "MC_faults_simf.cfg"})
+    good = [x for x in (r.get("records") or []) if sum(1 for e in x["events"] if e["kind"] == "release") >= 3 and len(x["reqs"]) >= 2]
+    if not good:
+        print("selftest: no multi-request trace recorded")
+        return False
+    rec = good[0]
+    a = copy.deepcopy(rec); a["tid"] = 1
+    b = copy.deepcopy(rec); b["tid"] = 2
+    k = max(m for m, e in enumerate(b["events"]) if e["kind"] == "release")
+    other = 0 if b["events"][k]["rid"] != 1 else 1
+    b["events"][k]["pending"][other] = b["events"][k]["pending"][other] + [["zz"]]
+    c = copy.deepcopy(rec); c["tid"] = 3
+    k = min(m for m, e in enumerate(c["events"]) if e["kind"] == "release")
+    c["events"][k]["p"] = ["never", "called"]
+    d = copy.deepcopy(rec); d["tid"] = 4; d["reqs"][-1]["data"] = {"t": "O", "v": [["zz", {"t": "N"}]]}
+    verdicts, _ = tracecheck.judge("Trace_multi.tla", "Trace_multi.cfg", [a, b, c, d])
+    print("Trace_multi verdicts (original, other request disturbed, foreign release, changed data):", [verdicts[k] for k in range(1, 5)])
+    ok &= verdicts[1][0] and verdicts[2] == (False, "another-request-disturbed") and not verdicts[3][0] and verdicts[4] == (False, "data")
     # the swapped order is either still a legal schedule (accepted) or rejected; it must not be accepted as model-conformant if the model forbids it
     return ok
 
